@@ -91,7 +91,13 @@ def _parse_timestamp(timestamp):
         try:
             # aaaa.bbbb. Nanosecond resolution supported.
             parts = timestamp.split('.', 1)
-            return Timestamp(int(parts[0]), int(parts[1][:9].ljust(9, "0")))
+            sec = int(parts[0])
+            # The whole fraction must be digits: 1.123456789e5 is a float, not 1 s + 123456789 ns.
+            int(parts[1])
+            if sec == 0 and parts[0].startswith('-'):
+                # -0.5: Timestamp cannot hold a negative fraction of a second (it would read +0.5); keep the float.
+                raise ValueError
+            return Timestamp(sec, int(parts[1][:9].ljust(9, "0")))
         except ValueError:
             # Float.
             ts = float(timestamp)
